@@ -216,7 +216,9 @@ impl World {
             out[i] = self.observe(i).map_err(|mut fails| {
                 // a handle that cannot even be read does not "read back what a String holds" either
                 let d = fails.first().map(|f| f.detail.clone()).unwrap_or_default();
-                fails.push(Failure::new("C01.unreadable_handle", d));
+                fails.push(Failure::new("C01.unreadable_handle", d.clone()));
+                // marker consumed by `step`: which slot could not be read
+                fails.push(Failure::new("C00.slot", i.to_string()));
                 fails
             })?;
         }
